@@ -752,6 +752,9 @@ func (e *Engine) inlinedOnly(encs []*FuncEnc) map[string]bool {
 					}
 					continue
 				}
+				if _, isDbg := in.(*ssa.DebugRef); isDbg {
+					continue // the debug reference of the callee's name at a call site is not a use of the function as a value
+				}
 				for _, op := range in.Operands(nil) {
 					if op != nil && *op != nil {
 						if f, ok := (*op).(*ssa.Function); ok {
@@ -764,6 +767,9 @@ func (e *Engine) inlinedOnly(encs []*FuncEnc) map[string]bool {
 	}
 	out := map[string]bool{}
 	for name, fn := range e.funcs {
+		if debugInlinedOnly && strings.Contains(name, os.Getenv("VERIF_DEBUG_INLINEDONLY")) {
+			fmt.Fprintf(os.Stderr, "inlined-only? %s: contract=%v valueUse=%v callers=%d blocks=%d\n", name, e.contracts[name] != nil, valueUse[fn], len(callers[fn]), len(fn.Blocks))
+		}
 		if e.contracts[name] != nil || valueUse[fn] || len(callers[fn]) == 0 || len(fn.Blocks) == 0 || strings.HasPrefix(fn.Name(), "init") {
 			continue
 		}
@@ -783,6 +789,9 @@ func (e *Engine) inlinedOnly(encs []*FuncEnc) map[string]bool {
 		ok := true
 		for _, c := range callers[fn] {
 			cfe := byName[e.fnames[c]]
+			if debugInlinedOnly {
+				fmt.Fprintf(os.Stderr, "inlined-only? %s: caller %s enc=%v inlined=%v\n", name, e.fnames[c], cfe != nil, cfe != nil && cfe.inlined[name])
+			}
 			if cfe == nil || !cfe.inlined[name] {
 				// a caller that is itself only inlined is covered through its own callers
 				if cfe != nil && e.contracts[e.fnames[c]] == nil && out[e.fnames[c]] {
